@@ -380,6 +380,17 @@ impl AnyCloner {
     { unimplemented!() }
 }
 
+// the crate's `Cloner: Updater + Resolve`: as a resolver the cloner answers with THE source document.
+// World B: Importer::resolve/forwards_to_source, Importer::stream_data/forwards_to_source; `get` (build.rs:322) is the same one-line forwarder (trusted)
+impl Resolve for AnyCloner {
+    #[verifier::external_body]
+    fn resolve(&self, r: PlainRef) -> (res: Result<Primitive>) { unimplemented!() }
+    #[verifier::external_body]
+    fn get<T>(&self, r: Ref<T>) -> (res: Result<RcRef<T>>) { unimplemented!() }
+    #[verifier::external_body]
+    fn stream_data(&self, id: PlainRef, range: Range<usize>) -> (res: Result<Arc<[u8]>>) { unimplemented!() }
+}
+
 // ---- references
 impl PlainRef {
 //@@ PlainRef::deep_clone
@@ -510,6 +521,7 @@ impl<V: DeepClone> DeepClone for HashMap<Name, V> {
 
 // ---- Primitive, Dictionary, PdfStream
 impl Primitive {
+//@@ Primitive::resolve
 //@@ Primitive::deep_clone
 }
 impl Dictionary {
@@ -1071,6 +1083,7 @@ impl<R: Resolve, U: Updater> Importer<R, U> {
 //@@ Importer::clone_rcref
 //@@ Importer::clone_shared
 //@@ Importer::stream_data
+//@@ Importer::resolve
 }
 
 }
